@@ -119,6 +119,12 @@ class SMIO(GameIO):
     def ref(self):
         return ref_sm
 
+    def tag_write_failure(self, a, layout=None) -> str:
+        try:
+            return "[needs>384rows] " if any(max_measure_rows(ma) > MAX_ROWS for ma in a["maps"]) else ""
+        except Exception:  # noqa
+            return ""
+
     def valid_doc(self, doc) -> str:
         for c in doc.get("charts", []):
             for rows in c.get("measures", []):
